@@ -273,6 +273,15 @@ def json_fields(P, R):
                         'var_at_level', 'var_at_level is not the inverse '
                         'of the level_of_var header', unit=rd.unit.rel,
                         line=rd.lineno)
+    elif inv is not None and 'bdd' in au.names_loaded(inv):
+        R.violation(
+            'R-FORMAT', 'json-fields', rd.qualname, 'var_at_level',
+            f'`{au.short(inv, 70)}`: the table that decodes the levels '
+            'stored with the nodes of the file is computed from the '
+            'receiving manager, not from the level_of_var header of the '
+            'file: when the manager orders the variables differently the '
+            'nodes are built on other variables', unit=rd.unit.rel,
+            line=inv.lineno)
     else:
         R.undecided('R-FORMAT', rd.qualname, 'var_at_level',
                     'unrecognised form')
